@@ -68,6 +68,8 @@ def unguardedUse : Nm := nm! "unguardedUse"
 def unguardedParam : Nm := nm! "unguardedParam"
 def lengthCheck : Nm := nm! "lengthCheck"
 def noSuchParam : Nm := nm! "noSuchParam"
+-- well-formedness
+def malformed : Nm := nm! "malformed"
 
 /-- every kind, in the order of the packed count vector -/
 def all : List Nm := [branch, index, sliceBound, shiftCount, divmod, makeSlice, aggCompare, publicArg,
@@ -75,7 +77,7 @@ def all : List Nm := [branch, index, sliceBound, shiftCount, divmod, makeSlice, 
   provMismatch, writeSummary, returnSummary, unmodelledCall, closureCapture, ptrEscape, tooManyParams,
   storeForeign, storeLoaded, storeGlobal, writesForeign, returnNotFresh, returnNotReceiver,
   globalStore, onceGlobalRef, onceAccessor, onceClosureRef, concurrency, forbiddenImport, forbiddenType,
-  errorPathWrite, returnShape, inputWritten, unguardedUse, unguardedParam, lengthCheck, noSuchParam]
+  errorPathWrite, returnShape, inputWritten, unguardedUse, unguardedParam, lengthCheck, noSuchParam, malformed]
 end K
 
 /-! ## names of the modelled externals and builtins -/
